@@ -38,16 +38,83 @@ def norm_diff(got, exp):
     return out
 
 
+MAX_NORMALISE_CHARS = 400000
+
+
+class PolyOb(Ob):
+    """got - exp == 0 with the difference already in normal form.
+
+    Holds side: the query is the full disjunction `some entry != 0` (literal `false` when every entry
+    normalised to 0).  Violation side (DESIGN 2.3, instance search): a non-zero normal form is a non-zero
+    polynomial, but nlsat is erratic at producing a witness for `p != 0`; so a point is looked for by exact
+    evaluation of one non-zero entry at small integer points, and when one is found the query becomes
+    `full AND variables == point` -- an instance of the full query, satisfiable by construction.  The point
+    only involves variables that do not occur in the path condition / assumptions (checked), so pinning
+    them cannot hide a violation, and `unsat` is never produced by an instance."""
+
+    def __init__(self, label, diff, key=None, side_formulas=(), seed=0):
+        Ob.__init__(self, label, "eq", got=diff, exp=None, key=key)
+        self.terms = []
+        self.concrete_bad = False
+        for idx in np.ndindex(*diff.shape):
+            v = diff[idx]
+            for p in (v.re, v.im):
+                if isinstance(p, Fraction):
+                    if p != 0:
+                        self.concrete_bad = True
+                else:
+                    self.terms.append(p)
+        self.exp = np.empty(diff.shape, dtype=object)
+        for idx in np.ndindex(*diff.shape):
+            self.exp[idx] = S(0)
+        self.point = None
+        if self.terms and not self.concrete_bad:
+            self.point = _find_point(self.terms, side_formulas, seed)
+
+    def violation_formula(self):
+        if self.concrete_bad:
+            return z3.BoolVal(True)
+        if not self.terms:
+            return z3.BoolVal(False)
+        full = z3.Or(*[t != 0 for t in self.terms])
+        if self.point is not None:
+            return z3.And(full, *[v == val for v, val in self.point])
+        return full
+
+
+def _find_point(terms, side_formulas, seed, tries=40):
+    import random
+    from .sym import free_vars
+    term = min(terms, key=lambda t: len(t.sexpr()))
+    vs = free_vars(term)
+    side_names = {str(v) for v in free_vars(*side_formulas)} if side_formulas else set()
+    if any(str(v) in side_names or str(v).startswith("sqrt_") or v.sort().kind() != z3.Z3_REAL_SORT for v in vs):
+        return None
+    rnd = random.Random(seed)
+    for k in range(tries):
+        span = 2 if k < 10 else 5
+        sub = [(v, z3.RealVal(rnd.choice([x for x in range(-span, span + 1) if x != 0]))) for v in vs]
+        val = z3.simplify(z3.substitute(term, *sub))
+        if z3.is_rational_value(val) and val.numerator_as_long() != 0:
+            return sub
+    return None
+
+
 def ob_eq_poly(inp, label, got, exp, key=None):
     """Ob for got == exp; symbolic mode: normalised difference == 0"""
     if inp.mode != "sym":
         return Ob.eq(label, got, exp, key=key)
+    from . import sym as _sym
     g = np.asarray(got, dtype=object)
     e = np.asarray(exp, dtype=object)
     if g.shape != e.shape:
         return Ob.holds(label + " (shape)", False, key=key)
-    d = norm_diff(g, e)
-    zero = np.empty(d.shape, dtype=object)
-    for idx in np.ndindex(*d.shape):
-        zero[idx] = S(0)
-    return Ob.eq(label, d, zero, key=key)
+    # cheap first: syntactically identical terms (what the framework's own simplification sees)
+    raw = z3.simplify(_sym.neq_any(g, e))
+    if z3.is_false(raw):
+        return Ob.eq(label, got, exp, key=key)
+    if len(raw.sexpr()) > MAX_NORMALISE_CHARS:
+        return Ob.eq(label, got, exp, key=key)          # too large to expand: left to the solver as it is
+    side = list(_sym.CTX.pc) if _sym.CTX is not None else []
+    side += list(inp.assumptions)
+    return PolyOb(label, norm_diff(g, e), key=key, side_formulas=side)
